@@ -15,6 +15,11 @@ POSSIBLE_UNSAFE_KEYS = (
     b"ssh-ed25519 ",
     b"ecdsa-sha2-",
 )
+# PEM loaders skip any text in front of the armor line, so a marker anywhere counts
+POSSIBLE_UNSAFE_MARKERS = (
+    b"-----BEGIN ",
+    b"---- BEGIN ",
+)
 
 
 class OctKey(Key):
@@ -78,7 +83,9 @@ class OctKey(Key):
             raw_key = to_bytes(raw)
 
             # security check
-            if raw_key.startswith(POSSIBLE_UNSAFE_KEYS):
+            if raw_key.startswith(POSSIBLE_UNSAFE_KEYS) or any(
+                marker in raw_key for marker in POSSIBLE_UNSAFE_MARKERS
+            ):
                 raise ValueError("This key may not be safe to import")
 
             key = cls(raw_key=raw_key, options=options)
